@@ -292,6 +292,7 @@ func c08Shapes() []c08Shape {
 		}},
 		{"upload", func(opts []string) *c08Builder { return c08Upload(opts, false) }},
 		{"upload-delete", func(opts []string) *c08Builder { return c08Upload(opts, true) }},
+		{"upload-delta", func(opts []string) *c08Builder { return c08UploadDelta(nil) }},
 	}
 }
 
@@ -363,6 +364,50 @@ func c08Upload(opts []string, del bool) *c08Builder {
 	return b
 }
 
+// c08Basis: the file "f1" that the upload module already holds (2 blocks of 700 bytes + 8).
+var c08Basis = genData(famHash, 1408, 88)
+
+// c08UploadDelta: an upload of f1 as a delta against the copy the module already
+// holds: the echoed checksum header and the block references are peer input too.
+func c08UploadDelta(opts []string) *c08Builder {
+	b := &c08Builder{}
+	c08Handshake(b, "up", []string{"--server", "-tr", ".", "up/"}, opts)
+	for i, e := range []struct {
+		name string
+		mode int32
+		size int64
+	}{{".", rp.SIFDIR | 0o755, 4096}, {"f1", rp.SIFREG | 0o644, 1408 + 50}} {
+		p := fmt.Sprintf("entry%d(%s).", i, e.name)
+		fl := byte(rp.XmitLongName)
+		if e.name == "." {
+			fl |= rp.XmitTopDir
+		}
+		b.Byte(p+"flags", fl)
+		b.LenBytes(p+"name", []byte(e.name))
+		b.Long(p+"size", e.size)
+		b.Int(p+"mtime", tm.Past+5, 0)
+		b.Int(p+"mode", e.mode, 0)
+	}
+	b.Byte("list-end", 0)
+	b.Int("io-error", 0, 0)
+	b.Int("data-index(1)", 1, 2)
+	// the header the generator sent for a 1408-byte basis, echoed
+	b.Int("sum-count", 3, 0)
+	b.Int("sum-blength", 700, 0)
+	b.Int("sum-s2length", 16, 0)
+	b.Int("sum-remainder", 8, 0)
+	b.Int("token-ref(block 0)", -1, 0)
+	b.Int("literal-length", 50, 0)
+	b.Raw("literal", genData(famText, 50, 9))
+	b.Int("token-ref(block 1)", -2, 0)
+	b.Int("token-ref(block 2, short)", -3, 0)
+	b.Int("token-end", 0, 0)
+	b.Raw("file-md4", make([]byte, 16))
+	b.Int("phase1", -1, 0)
+	b.Int("phase2", -1, 0)
+	return b
+}
+
 // c08Daemon holds the long-lived server of one worker.
 type c08Daemon struct {
 	srv  *rsyncd.Server
@@ -376,6 +421,7 @@ func c08NewDaemon() (*c08Daemon, error) {
 		return nil, err
 	}
 	os.MkdirAll(filepath.Join(dir, "up"), 0o755)
+	os.WriteFile(filepath.Join(dir, "up", "f1"), c08Basis, 0o644)
 	srv, err := rsyncd.NewServer([]rsyncd.Module{{Name: "mod", Path: filepath.Join(dir, "mod")}, {Name: "up", Path: filepath.Join(dir, "up"), Writable: true}}, rsyncd.DontRestrict(), rsyncd.WithStderr(io.Discard), rsyncd.WithLogger(nullLogger{}))
 	if err != nil {
 		return nil, err
@@ -386,6 +432,14 @@ func c08NewDaemon() (*c08Daemon, error) {
 
 // hostile plays raw client bytes against the daemon and returns the server's output.
 func (d *c08Daemon) hostile(client []byte) (out []byte, stalled bool) {
+	// earlier hostile uploads may legitimately have changed the writable module (e.g. --delete with a
+	// mutated list): every session starts from the same module content, so that the delta path is reached
+	up := filepath.Join(d.dir, "up")
+	if b, err := os.ReadFile(filepath.Join(up, "f1")); err != nil || !bytes.Equal(b, c08Basis) {
+		tm.RemoveAll(up)
+		os.MkdirAll(up, 0o755)
+		os.WriteFile(filepath.Join(up, "f1"), c08Basis, 0o644)
+	}
 	c2s, s2c := drive.NewPipe(false), drive.NewPipe(true)
 	c2s.Write(client)
 	c2s.Close()
@@ -833,7 +887,7 @@ func init() {
 	core.Register(&core.Prop{
 		ID:    "C08",
 		Level: "model_checking",
-		Rule: "daemon: six valid daemon-session shapes (module listing, pull, pull with -logc and real block sums, pull with filter rules, upload, upload with --delete) are built as typed field sequences; at EVERY field every value of its type's boundary set is substituted (ints: -2^31,-2,-1,0,1,v-1,v+1,2^20-1,2^31-1 and list-length+-1 for indices; flag bytes: every single bit; names/rules/link targets: empty, dot-dot, absolute, 4095/4096 bytes, wildcards, NUL, and inconsistent lengths incl. negative; greeting/module lines; EVERY option the parser knows (from its help texts) alone and with =x on every option line, plus --version/--help/--info=help/-h/--daemon/...), and the stream is truncated at EVERY byte offset (thorough: bytes {00,01,7f,80,ff} substituted at every offset and pairs of adjacent field mutations); after each hostile session the same daemon must serve the canonical valid pull correctly. vanishing: a client with well-formed requests drops the connection after 0..8 MiB of a 24 MiB download (with and without block sums), 3 rounds each, and the canonical pull must be served correctly at once. client: the library client is fed a hostile server's stream with the same mutations at every field of the file list / responses, truncation at every payload offset, malformed frame headers, and complete frames of 13 lengths (0..2^24-1 around 4 KiB, 64 KiB, 256 KiB, 1 MiB) x 8 tags x 4 positions delivered with their whole payload. " +
+		Rule: "daemon: seven valid daemon-session shapes (module listing, pull, pull with -logc and real block sums, pull with filter rules, upload, upload with --delete, delta upload against a copy the module already holds with echoed checksum header and block references) are built as typed field sequences; at EVERY field every value of its type's boundary set is substituted (ints: -2^31,-2,-1,0,1,v-1,v+1,2^20-1,2^31-1 and list-length+-1 for indices; flag bytes: every single bit; names/rules/link targets: empty, dot-dot, absolute, 4095/4096 bytes, wildcards, NUL, and inconsistent lengths incl. negative; greeting/module lines; EVERY option the parser knows (from its help texts) alone and with =x on every option line, plus --version/--help/--info=help/-h/--daemon/...), and the stream is truncated at EVERY byte offset (thorough: bytes {00,01,7f,80,ff} substituted at every offset and pairs of adjacent field mutations); after each hostile session the same daemon must serve the canonical valid pull correctly. vanishing: a client with well-formed requests drops the connection after 0..8 MiB of a 24 MiB download (with and without block sums), 3 rounds each, and the canonical pull must be served correctly at once. client: the library client is fed a hostile server's stream with the same mutations at every field of the file list / responses, truncation at every payload offset, malformed frame headers, and complete frames of 13 lengths (0..2^24-1 around 4 KiB, 64 KiB, 256 KiB, 1 MiB) x 8 tags x 4 positions delivered with their whole payload. " +
 			"oracle: the process neither crashes nor exits (a dying worker is attributed to the journalled case) and the daemon keeps serving; states/transitions = hostile sessions; non-trivial = session that got past the handshake",
 		Assum: []string{"count-like fields stay below 2^20 unless negative; every hostile peer closes its connection; stalls are outside the guarantee"},
 		Parts: func(tier string) []core.Part {
